@@ -5,6 +5,9 @@
 use crate::engine::*;
 use crate::pc::*;
 use crate::run::{Backend, RunErr, bits_eq, full_run};
+use crate::xform;
+use std::cell::RefCell;
+use std::sync::OnceLock;
 use serde_json::{Value, json};
 use std::collections::BTreeMap;
 
@@ -71,6 +74,31 @@ fn n_main() -> u64 {
 }
 const NPOW: u64 = 5;
 
+/// programs of the families with one expression node quoted and spliced back (every node x every mode)
+fn space(tier: Tier) -> &'static Space {
+    static Q: OnceLock<Space> = OnceLock::new();
+    static T: OnceLock<Space> = OnceLock::new();
+    match tier {
+        Tier::Quick => Q.get_or_init(|| Space::new(&[("FS", 1), ("FC", 2), ("FA", 2)])),
+        Tier::Thorough => T.get_or_init(|| Space::new(&[("FS", 2), ("FC", 3), ("FA", 2)])),
+    }
+}
+/// positions per program (programs with more nodes are reported through the counter `node_cap_exceeded`)
+const NODE_CAP: u64 = 64;
+fn n_modes() -> u64 {
+    xform::STAGE_MODES.len() as u64
+}
+fn n_fixed() -> u64 {
+    n_main() + NPOW + lifts().len() as u64 + n_lift_shapes()
+}
+fn n_family(tier: Tier) -> u64 {
+    space(tier).n() * NODE_CAP * n_modes()
+}
+thread_local! {
+    /// outputs of the last base program (the hand-written expansion of all its staged variants) per backend
+    static BASE: RefCell<Option<(u64, Vec<(Backend, Result<Vec<Vec<f64>>, RunErr>)>)>> = const { RefCell::new(None) };
+}
+
 enum Case {
     Pair { staged: String, expanded: String, what: String },
     Lift { src: String, expect: f64, what: String },
@@ -121,21 +149,125 @@ fn build(idx: u64) -> Case {
     Case::Lift { src: format!("fn dsp(x) {{\n  $(({e}) |> lift_f)\n}}\n"), expect: v, what: format!("lift_f({e})") }
 }
 
+struct FamCase {
+    base_idx: u64,
+    base: String,
+    staged: String,
+    what: String,
+    tags: Vec<String>,
+    inputs: usize,
+    family: &'static str,
+    over_cap: bool,
+}
+fn family_case(tier: Tier, k: u64) -> Option<FamCase> {
+    let per = NODE_CAP * n_modes();
+    let (base_idx, r) = (k / per, k % per);
+    let (node, mode) = (r / n_modes(), (r % n_modes()) as usize);
+    let (family, g) = space(tier).get(base_idx);
+    let g = g?;
+    let nodes = xform::n_nodes(&g.prog);
+    if node >= nodes {
+        return None;
+    }
+    let (q, ctx) = xform::stage_at(&g.prog, node, mode);
+    let role = ctx.split(' ').next().unwrap_or("").to_string();
+    let node_kind = ctx.rsplit(' ').next().unwrap_or("").to_string();
+    let mut tags = g.tags();
+    tags.push(format!("context:{}", xform::STAGE_MODES[mode]));
+    tags.push(format!("staged_role_{role}"));
+    tags.push(format!("staged_kind_{node_kind}"));
+    let prelude = if mode == 0 { "" } else { xform::STAGE_PRELUDE };
+    Some(FamCase {
+        base_idx,
+        base: g.source(),
+        staged: format!("{prelude}{}", crate::lang::print(&q)),
+        what: format!("{}: node {node} ({ctx}) of a {family} program", xform::STAGE_MODES[mode]),
+        tags,
+        inputs: g.inputs,
+        family,
+        over_cap: node == 0 && mode == 0 && nodes > NODE_CAP,
+    })
+}
+fn run_family_case(tier: Tier, k: u64) -> CaseOut {
+    let Some(fc) = family_case(tier, k) else {
+        return CaseOut { key: k, nontrivial: false, outcome: "no_such_node".into(), ..Default::default() };
+    };
+    let n = if tier == Tier::Thorough { 16 } else { 8 };
+    let backends: &[Backend] = if tier == Tier::Thorough || k % 8 == 0 { &[Backend::Vm, Backend::Wasm] } else { &[Backend::Vm] };
+    let obs = |b: Backend, src: &str| run_backend(b, src, false, fc.inputs, 0, n, false).map(|f| f.out);
+    let mut fails = vec![];
+    let mut outcome = "same".to_string();
+    let mut ran = false;
+    for &b in backends {
+        // the expansion is the untransformed program: run once per backend and shared by all its staged variants
+        let cached = BASE.with(|c| c.borrow().as_ref().and_then(|(i, v)| if *i == fc.base_idx { v.iter().find(|(bb, _)| *bb == b).map(|(_, r)| r.clone()) } else { None }));
+        let c = match cached {
+            Some(r) => r,
+            None => {
+                let r = obs(b, &fc.base);
+                BASE.with(|c| {
+                    let mut c = c.borrow_mut();
+                    match c.as_mut() {
+                        Some((i, v)) if *i == fc.base_idx => v.push((b, r.clone())),
+                        _ => *c = Some((fc.base_idx, vec![(b, r.clone())])),
+                    }
+                });
+                r
+            }
+        };
+        let a = obs(b, &fc.staged);
+        match (&a, &c) {
+            (Ok(x), Ok(y)) => {
+                ran = true;
+                if let Some((_, d)) = first_diff(x, y, bits_eq) {
+                    outcome = "differs".into();
+                    fails.push(Fail { clause: format!("{}_staged_differs_from_expansion", b.name()), detail: format!("{}: {d} (staged vs the program without the quote/splice); staged={} expansion={}", fc.what, show(x, 6), show(y, 6)) });
+                }
+            }
+            (Err(RunErr::Compile(_)), Err(RunErr::Compile(_))) => outcome = "both_rejected".into(),
+            (_, Err(_)) => outcome = "expansion_does_not_run".into(),
+            (Err(e), Ok(_)) => {
+                outcome = "differs".into();
+                let (kk, m) = match e {
+                    RunErr::Compile(es) => ("rejected", es.join(" | ")),
+                    RunErr::Crash(m) => ("crashes", m.clone()),
+                };
+                fails.push(Fail { clause: format!("{}_staged_program_{kk}_but_expansion_runs", b.name()), detail: format!("{}: {}", fc.what, m.chars().take(300).collect::<String>()) });
+            }
+        }
+    }
+    let mut counters = vec![(format!("context_{}", fc.tags.iter().find(|t| t.starts_with("context:")).map(|t| &t[8..]).unwrap_or("")), 1), (format!("family_{}", fc.family), 1)];
+    if fc.over_cap {
+        counters.push(("node_cap_exceeded".into(), 1));
+    }
+    if let Some(t) = fc.tags.iter().find(|t| t.starts_with("staged_kind_")) {
+        counters.push((t.clone(), 1));
+    }
+    CaseOut { key: fnv(fc.staged.as_bytes()), nontrivial: ran, outcome, fails, tags: fc.tags, repr: json!({"what": fc.what, "staged_source": fc.staged, "expanded_source": fc.base}), counters }
+}
+
 impl Prop for C09 {
     fn id(&self) -> &'static str {
         "C09"
     }
-    fn n_cases(&self, _tier: Tier) -> u64 {
-        n_main() + NPOW + lifts().len() as u64 + n_lift_shapes()
+    fn n_cases(&self, tier: Tier) -> u64 {
+        n_fixed() + n_family(tier)
     }
     fn chunk(&self, _t: Tier) -> u64 {
-        8
+        // a multiple of the positions of one family program, so that a chunk shares its base runs
+        NODE_CAP * n_modes()
+    }
+    fn recycle_after(&self) -> u64 {
+        60_000
     }
     fn min_outcomes(&self) -> usize {
         // "same" for every case is the property holding; non-vacuity is guarded by distinct_nontrivial
         1
     }
     fn run_case(&self, tier: Tier, idx: u64) -> CaseOut {
+        if idx >= n_fixed() {
+            return run_family_case(tier, idx - n_fixed());
+        }
         let n = if tier == Tier::Thorough { 24 } else { 8 };
         let inp = |t: usize| vec![stream(if idx % 2 == 0 { 0 } else { 3 }, t)];
         let mut fails = vec![];
@@ -206,16 +338,26 @@ impl Prop for C09 {
             },
             repr, counters: vec![(format!("context_{ctxtag}"), 1)] }
     }
-    fn describe_case(&self, _tier: Tier, idx: u64) -> (Value, Vec<String>) {
+    fn describe_case(&self, tier: Tier, idx: u64) -> (Value, Vec<String>) {
+        if idx >= n_fixed() {
+            return match family_case(tier, idx - n_fixed()) {
+                Some(fc) => (json!({"what": fc.what, "staged_source": fc.staged, "expanded_source": fc.base}), fc.tags),
+                None => (json!({"idx": idx}), vec![]),
+            };
+        }
         match build(idx) {
             Case::Pair { staged, what, .. } => (json!({"what": what, "staged_source": staged}), vec![]),
             Case::Lift { src, what, .. } => (json!({"what": what, "source": src}), vec![]),
         }
     }
-    fn describe(&self, _tier: Tier) -> Descr {
+    fn describe(&self, tier: Tier) -> Descr {
         Descr {
             rule: format!(
-                "{} stage-1 expressions (arithmetic, stateful call, mem, delay, if, tuple, record, block with let, closures reading and assigning captures, now/samplerate, builtins, pipe) x {} staging contexts (quote-then-splice, identity macro, macro-stage let spliced once / twice, f!(a) and $(f(a)), nested quote/splice, two-argument macro, macro calling a macro), each compared on VM and WASM with the expansion written out by the harness; code-building numeric recursion genpower(n), n = 0..{}, against the unrolled product; {} macro-stage numeric computations lifted with lift_f against the f64 the harness computes (bitwise); {} structured values (arrays of rows of 7 shapes: flat, nested pairs in every position, a record with a pair field) computed at the macro stage, lifted with the polymorphic `lift` and read back by a destructuring pattern, against the same array written at stage 1. non-trivial = both programs ran.",
+                "every program of the families {} with each single expression node (operand, argument, callee, condition, branch, let value, lambda, block, tuple/record member, mem/delay operand ...) quoted and spliced back on the spot in {} ways ({}), compared with the untransformed program (VM on every case, WASM on every 8th in the quick tier and on all in the thorough tier); \
+                 {} stage-1 expressions (arithmetic, stateful call, mem, delay, if, tuple, record, block with let, closures reading and assigning captures, now/samplerate, builtins, pipe) x {} staging contexts (quote-then-splice, identity macro, macro-stage let spliced once / twice, f!(a) and $(f(a)), nested quote/splice, two-argument macro, macro calling a macro), each compared on VM and WASM with the expansion written out by the harness; code-building numeric recursion genpower(n), n = 0..{}, against the unrolled product; {} macro-stage numeric computations lifted with lift_f against the f64 the harness computes (bitwise); {} structured values (arrays of rows of 7 shapes: flat, nested pairs in every position, a record with a pair field) computed at the macro stage, lifted with the polymorphic `lift` and read back by a destructuring pattern, against the same array written at stage 1. non-trivial = both programs ran.",
+                space(tier).describe(),
+                n_modes(),
+                xform::STAGE_MODES.join(", "),
                 EXPRS.len(),
                 CONTEXTS.len(),
                 NPOW - 1,
@@ -223,11 +365,23 @@ impl Prop for C09 {
                 n_lift_shapes()
             ),
             assumptions: vec!["expansions are text templates instantiated by the harness, not produced by the compiler".into(), "macro-stage arithmetic is assumed to be IEEE f64 like Rust's (used for the lift_f expectations)".into()],
-            bounds: json!({"expressions": EXPRS.len(), "contexts": CONTEXTS.len(), "context_nesting": 2}),
+            bounds: json!({"expressions": EXPRS.len(), "contexts": CONTEXTS.len(), "context_nesting": 2, "families": space(tier).describe(), "staged_nodes_per_program": "all", "deviations": 1}),
             shape: "E",
         }
     }
     fn vacuity(&self, _t: Tier, c: &BTreeMap<String, u64>) -> Vec<String> {
-        if c.get("context_lift").copied().unwrap_or(0) == 0 { vec!["no lift case".into()] } else { vec![] }
+        let mut v = vec![];
+        if c.get("context_lift").copied().unwrap_or(0) == 0 {
+            v.push("no lift case".into());
+        }
+        if c.get("node_cap_exceeded").copied().unwrap_or(0) > 0 {
+            v.push("a family program has more expression nodes than NODE_CAP".into());
+        }
+        for f in ["family_FS", "family_FC", "family_FA"] {
+            if c.get(f).copied().unwrap_or(0) == 0 {
+                v.push(format!("{f} empty"));
+            }
+        }
+        v
     }
 }
